@@ -8,9 +8,10 @@ NOTES = ("All checks rebuild every obligation from /repo's working tree. Obligat
          "Known findings: known_findings.json. Seeded changes used to test the checks: seeded/.")
 
 NOT_APPLICABLE = [
-    dict(property_id='C12', reason="oracle is the CPython compiler of 8 interpreter versions (6 absent offline); no "
-         "pre/postcondition over parso's functions can state it without calling that oracle on sampled programs, "
-         "which is differential testing, not contract verification"),
+    dict(property_id='C12', reason="the oracle is the CPython compiler of 8 interpreter versions (they are installed under "
+         "~/.pyenv/versions, so a differential test is possible, but) no pre/postcondition over parso's functions can state "
+         "'CPython accepts this program' except by calling that compiler on sampled programs: the whole check would be "
+         "differential testing with nothing deductive in it; the error finder's own contracts are covered under C13"),
     dict(property_id='C14', reason="reference semantics exists only as CPython's ast output on concrete programs; an "
          "independent contract for get_definition & co. would be a second hand-written copy of the same pattern "
          "matching"),
@@ -86,10 +87,16 @@ CHECKS = {
              'finding), dedent_if_necessary keeps the indentation stack strictly increasing (one DEDENT per level), FStringNode '
              'bookkeeping, _close_fstring_if_necessary (prefix purity + tiling), _find_fstring_string, _split_illegal_unicode_name; ' + _B,
              'tokenize_lines main loop (tiling/balance/positions) bounded only'),
-    'C10': C('4 C10', 'RegLan equivalence of lexeme classes with the running CPython\'s tokenize regex grammar; bounded stream comparison with CPython 3.12 only',
+    'C10': C('4 C10', 'RegLan equivalence of lexeme classes with the running CPython\'s tokenize regex grammar; bounded stream comparison with the '
+             'tokenizers of CPython 3.6-3.13 (interpreters of ~/.pyenv/versions, one reference process per version)',
              'D: Number/Comment/ASCII-name languages equal, operators covered, maximal munch, string prefixes, 9 versions; '
-             'B: token stream equals tokenize.generate_tokens on programs CPython 3.12 compiles',
-             'narrow claim: reference interpreters 3.6-3.11, 3.13 absent; stream level only for 3.12'),
+             'B: parso\'s token stream for version V equals tokenize.generate_tokens of CPython V on every program CPython V compiles, '
+             'and up to the rejected token on programs its parser rejects with a plain "invalid syntax" (the tokenizer accepted '
+             'them that far); quick: exhaustive scope on 3.6, 3.8, 3.12 and random programs on 3.6-3.13, thorough: all 8',
+             'no CPython 3.14 in the sandbox: 3.14 only through the D obligations; before 3.12 the reference is the pure-Python '
+             'tokenize module (programs on which it reports ERRORTOKEN, and for 3.9-3.11 a blank line after a backslash continuation, '
+             'are not compared); an f-string is compared from the inside only for 3.12+; a version whose interpreter is missing is counted in '
+             'the evidence (pred_stats), not compared'),
     'C11': C('4 C11', 'VCs over a heap model with ghost in-order leaf numbering, discharged by z3; bounded monitor',
              'D: get_root_node, next/previous sibling, next/previous leaf, first/last leaf (all overrides), search_ancestor, '
              '__eq__ identity, get_leaf_for_position and its binary-search closure (ghost fge); '
